@@ -21,11 +21,26 @@ def pregen(check):
     old = open(path).read() if os.path.exists(path) else None
     if old != p.stdout:
         open(path, "w").write(p.stdout)
+    # T1 for encoding/shp/shp2geom.go: harness/cmd/c16/extract/geom.go translates getStartEnd, polygon2geom, polyLine2geom,
+    # multiPoint2geom, point2geom, shp2Geom, geom2Shp, geom2point, geom2polygon, geom2polyLine, geom2multiPoint statement by
+    # statement (vocabulary: GenGeomLib.lean) into GenGeom.lean; TieGeom.lean proves each equal to the model for all inputs.
+    with vcheck.Lock("go"):
+        q = subprocess.run(["go", "run", "./cmd/c16/extract", "-geom", vcheck.REPO], cwd=vcheck.HARNESS, env=vcheck.GOENV,
+                           stdout=subprocess.PIPE, stderr=subprocess.PIPE, text=True)
+    gpath = os.path.join(vcheck.LEAN, "GeomV", "C16", "GenGeom.lean")
+    if q.returncode != 0 or "namespace GeomV.C16.GenGeom" not in q.stdout:
+        check.broken.append("extractor harness/cmd/c16/extract -geom failed on encoding/shp/shp2geom.go: " + q.stderr.strip()[-300:])
+        return
+    if q.stderr.strip():
+        check.broken.append("extractor harness/cmd/c16/extract -geom: construct outside the translated subset in encoding/shp/shp2geom.go: " + q.stderr.strip()[-300:])
+    gold = open(gpath).read() if os.path.exists(gpath) else None
+    if gold != q.stdout:
+        open(gpath, "w").write(q.stdout)
 
 
 CFG = {
     "id": "C16",
-    "lean_modules": ["GeomV.C16.Proofs", "GeomV.C16.LayoutProofs"],
+    "lean_modules": ["GeomV.C16.Proofs", "GeomV.C16.LayoutProofs", "GeomV.C16.EndToEnd", "GeomV.C16.TieGeom"],
     "exe": "geomv_c16",
     "go_cmd": "c16",
     "stages": ["go:gen", "go:impl", "lean:judge"],
@@ -35,6 +50,11 @@ CFG = {
                                  "C16_match", "C16_assigned", "C16_match_none", "C16_match_fields",
                                  "C16_name_roundtrip", "C16_columns", "C16_match_self", "C16_struct_roundtrip",
                                  "Layout.C16_container", "Layout.parseShape_shapeBytes", "Layout.readShapes_recs", "Layout.openDbf_header", "Layout.rawCell_rows", "Layout.writeAt_cell", "Layout.attrsStrict_spec", "Layout.attrsLenient_spec", "Layout.close_dbf", "Layout.emptyRecord_eq", "Layout.toShape_geom2ShpB", "Layout.encode_strict_step", "Layout.encode_lenient_step", "Layout.create_inv",
+                                 "Layout.C16_end_to_end", "Layout.C16_bytes_in_order", "Layout.C16_headline_bytes", "Layout.C16_bytes_geometry", "Layout.C16_bytes_cells",
+                                 "Layout.encode_sync", "Layout.run_sync", "Layout.attrsStrict_over", "Layout.attrsLenient_over", "Layout.writeAt_cell_mid", "writeAllG_eq_writeAllF",
+                                 "Layout.widths_faithful", "Layout.widths_wrap", "Layout.recLenGo_eq", "Layout.FileOK_of_widths",
+                                 "GenGeom.tie_getStartEnd", "GenGeom.tie_polygon2geom", "GenGeom.tie_polyLine2geom", "GenGeom.tie_point2geom", "GenGeom.tie_multiPoint2geom", "GenGeom.tie_shp2Geom",
+                                 "GenGeom.tie_geom2point", "GenGeom.tie_geom2polygon_ring", "GenGeom.tie_geom2polygon", "GenGeom.tie_geom2polyLine", "GenGeom.tie_geom2multiPoint", "GenGeom.tie_geom2Shp",
                                  "Gen.tie_widths", "Gen.tie_columns", "Gen.tie_lookup", "Gen.tie_cuts", "Gen.tie_write_order"]],
     "trusted_base": [
         "Lean 4.33.0 kernel; axioms of every theorem printed by #print axioms must be within {propext, Classical.choice, Quot.sound}",
